@@ -1,6 +1,6 @@
 """C16 — error replies are coherent (DESIGN.md §4 C16)."""
 
-PKGS = ["./internal/endpoint/smtp/", "./internal/target/queue/", "./internal/msgpipeline/", "./internal/check/milter/"]
+PKGS = ["./internal/endpoint/smtp/", "./internal/target/queue/", "./internal/msgpipeline/", "./internal/check/milter/", "./internal/target/remote/", "./internal/target/smtp/"]
 
 
 def harness(c, n, replay_ops=None):
@@ -48,7 +48,13 @@ def run(c):
     return c.finish(
         rule="error trees generated from the wrapping primitives (depth 0-12, 75% satisfying the theorem hypotheses, 25% arbitrary), "
         "passed through the real wrapErr / toSMTPErr / SMTPCode / SMTPEnchCode / reject-directive parsers and through the Lean model; "
+        "next-hop failures: every kind of SMTP client error (replies: 20 basic codes x no / same-class / other-class enhanced code, 552 over-represented; "
+        "network, DNS, TLS errors; arbitrary values) through the real smtpconn.wrapClientErr; scripted MX candidates (1-4; policy refusal with an arbitrary "
+        "error value, dial failure, greeting / EHLO / MAIL / RCPT / DATA / end-of-data reply of a scripted server parsed by the real go-smtp client; every order of "
+        "temporary / permanent / unclassified failures over 1-3 candidates) through the real remote AddRcpt / newConn / lookupMX / BodyNonAtomic; the same for the "
+        "endpoints and LMTP statuses of target.smtp / target.lmtp; multipleErrs; each resulting VALUE then through the real wrapErr and toSMTPErr; "
         "distinct = distinct op lines",
-        explanation="theorems over all error trees + decide over the regenerated literal table; model tied to the code by differential runs",
+        explanation="theorems over all error trees, all client errors, all lists of per-MX / per-endpoint outcomes + decide over the regenerated literal table; "
+        "model tied to the code by differential runs (the real error values are abstracted into model terms node by node and compared)",
         search=search,
     )
